@@ -153,7 +153,7 @@ PROPERTIES = {
     },
     "C17": {
         "rules": ["R-LIMIT", "R-PANIC-ITER"],
-        "level": "proof",
+        "level": "other",
         "explanation": "Abstract interpretation of next() with a configured limit Some(m): every allocation sized by stream data (buffer growth, to_vec, "
                        "collect) is proved <= m, or <= the existing capacity, or <= the 16-byte look-ahead; size arithmetic in header validation cannot overflow "
                        "and no declared size can reach a panic (R-PANIC-ITER). "
@@ -161,7 +161,7 @@ PROPERTIES = {
     },
     "C14": {
         "rules": ["R-RECOVER", "R-RECOVER-STRETCH"],
-        "level": "proof",
+        "level": "other",
         "explanation": "Abstract interpretation of try_recover() from any object state satisfying the buffer invariant: panic-freedom, "
                        "monotonicity of the stream offset (the distance subtraction cannot underflow) and the set of error variants it can "
                        "return; every failed look-ahead advances the scan by one byte and only end of input ends it with an error; open known-size "
@@ -169,10 +169,11 @@ PROPERTIES = {
     },
     "C05": {
         "rules": ["R-PANIC-ITER", "R-SPEC-CONSIST", "R-PANIC-PAYLOAD", "L-ADVANCE", "L-BUFFER-PROGRESS", "R-IOERR"],
-        "level": "proof",
+        "level": "other",
         "explanation": "Abstract interpretation of next() and try_recover() from any object state satisfying the (inductively proved) buffer "
                        "invariant: every compiler-inserted assert, std precondition and explicit panic reachable from the public API is discharged "
-                       "(or assumed under a named assumption / listed as reviewed); I/O errors propagate; each accepted header consumes 2..16 bytes. "
+                       "(or assumed under a named assumption / listed as reviewed — which is why the level is 'other', not 'proof': two obligations rest on a "
+                       "reviewed argument whose premises are checked mechanically); I/O errors propagate; each accepted header consumes 2..16 bytes. "
                        "Termination, the linear bound and fusedness as such are not decided.",
     },
     "C10": {
